@@ -17,9 +17,9 @@ PROPS = {
             "note": "span discipline of injected / copied nodes"},
     "C12": {"units": ["U1", "U6a", "U4", "U5", "U6b", "U6c", "U9", "U7"], "min_obligations": 5,
             "note": "status never disagrees with content"},
-    "C10": {"units": ["U9"], "min_obligations": 4,
-            "note": "source-map chaining / trailer handling live in glue outside the Verus subset: every function is pinned by sha256 and backed by replayed witnesses (NOT a proof; level `other`)", "level": "other"},
-    "C13": {"units": ["U1", "U2", "U3", "U4", "U5", "U6a", "U6b", "U6c", "U8", "U9", "U7", "U2b"], "min_obligations": 30,
+    "C10": {"units": ["U10", "U9"], "min_obligations": 8,
+            "note": "chain_source_maps under contract over abstract views of the sourcemap crate (assumed library specs): the returned text serialises exactly the token-by-token composition, None (plain rewrite map) when chaining is off / no original map / unparsable rewrite map; lemma_exact_composition: generated positions resolve as the two-step lookup when every rewrite token has a hit. Trailer and comment handling (print_js, extract_source_map, remove_comment_text) is NOT proved: pinned by sha256 + replayed witnesses"},
+    "C13": {"units": ["U1", "U2", "U3", "U4", "U5", "U6a", "U6b", "U6c", "U8", "U9", "U7", "U2b", "U10"], "min_obligations": 30,
             "note": "totality: Verus' implicit obligations (no overflow, no failing unwrap/index/slice, every loop and recursion terminates) on every verified function of every unit; glue functions pinned + panic witnesses"},
     "C14": {"units": ["U8"], "min_obligations": 8,
             "note": "literal report: length window, require/RegExp exclusions, which sub-trees are visited, disabled => no report; line/column shaping (get_result) is a pinned trusted leaf"},
